@@ -19,7 +19,7 @@ struct EncScenario : Scenario {
         if (!compressed) { f.push_back(strf("flip:%zu:0", n - 1)); f.push_back(strf("flip:%zu:0", n / 2 - 1)); f.push_back("negy"); f.push_back("isocurve:2"); f.push_back(strf("isocurve:%d", 3 + (int) r.below(1000))); }
         f.push_back("wrongsub:" + rhex(r, 8)); f.push_back("wrongsub:" + rhex(r, 8));
         if (compressed) { f.push_back("xnoy:" + rhex(r, 8)); f.push_back("xnoy:" + rhex(r, 8)); }
-        for (int v = 0; v < 5; v++) f.push_back(strf("badinf:%d", v));
+        for (int v = 0; v < 8; v++) f.push_back(strf("badinf:%d", v));
         f.push_back("zero"); f.push_back("ff"); f.push_back("wrongform");
         f.push_back("other:" + rhex(r, 32)); f.push_back("none");
         return f;
@@ -205,7 +205,12 @@ struct EncScenario : Scenario {
                             else if (v == 1) { b = inf; b[0] |= FL_GREATER; fired = true; }
                             else if (v == 2) { b = inf; b[b.size() - 1] = 1; fired = true; }
                             else if (v == 3) { b = inf; b[0] |= 1; fired = true; }
-                            else { b = inf; b[b.size() / 2] = 0x80; fired = true; }
+                            else if (v == 4) { b = inf; b[b.size() / 2] = 0x80; fired = true; }
+                            else {   // 5,6,7: the infinity flag over coordinate slots that hold exactly the modulus q (which parses to zero): last slot / first slot / every slot
+                                b = inf; uint8_t qb[48]; K().q.to_be(qb, 48); size_t ns = b.size() / 48;
+                                for (size_t sl = 0; sl < ns; sl++) if (v == 7 || (v == 5 && sl == ns - 1) || (v == 6 && sl == 0)) for (size_t i = 0; i < 48; i++) b[sl * 48 + i] |= qb[i];
+                                fired = true;
+                            }
                         }
                         else if (kind == "wrongform") { std::vector<uint8_t> o; c.marshal(o, a, !comp); o.resize(enc_size(g, comp), 0); b = o; fired = true; }
                         else if (kind == "other") { std::vector<uint8_t> k = unhex(arg); k.resize(32); Buf oa(c.asz()); c.mul_gen(oa, k); c.marshal(b, oa, comp); fired = b != b0; }
